@@ -1,0 +1,24 @@
+//go:build verif
+
+// Contracts for package dpop, checked by /verif/govc (comment-only; not part of any normal build).
+
+package dpop
+
+//@ func jwkIsPrivateKey
+//@   prop C17 C03
+//@   pure
+
+//@ func Parse
+//@   prop C17 C03
+//@   call jwt.ParseString #1 requires [one-signature-allowed-alg-embedded-public-key]
+//@        arg(0) == s && did(call jws.ParseString #1) && isNilIface(ret(call jws.ParseString #1).1) && arg(call jws.ParseString #1, 0) == s
+//@     && len(ret(call (jws.Message).Signatures #1)) == 1
+//@     && headers == ret(call (jws.Message).Signatures #2)[0].ProtectedHeaders()
+//@     && slices.Contains(jwx.SupportedAlgorithms, headers.Algorithm())
+//@     && headers.Type() == "dpop+jwt" && !isNilIface(headers.JWK()) && !jwkIsPrivateKey(headers.JWK())
+//@     && len(arg(1)) == 1 && arg(1)[0] == ret(call jwt.WithKey #1)
+//@     && arg(call jwt.WithKey #1, 0) == jwa.KeyAlgorithm(headers.Algorithm()) && arg(call jwt.WithKey #1, 1) == headers.JWK()
+//@   cover call jwt.ParseString #1
+//@   ensures [success-only-via-verified-parse] isNilIface(result.1) ==> result.0 != nil && did(call jwt.ParseString #1) && isNilIface(ret(call jwt.ParseString #1).1)
+//@   ensures [claims-present] isNilIface(result.1) ==> !result.0.Token.IssuedAt().IsZero() && result.0.Token.JwtID() != "" && len(result.0.Token.JwtID()) <= maxJtiLength
+//@   ensures [fields-from-verified-token] isNilIface(result.1) ==> result.0.raw == s && result.0.Token == ret(call jwt.ParseString #1).0
